@@ -134,10 +134,60 @@ async fn call(svc: &mut srv::HttpSvc, req: HttpRequest<FramesBody>) -> (Result<H
 	(out, log)
 }
 
+
+/// Part (A) judgement, shared by the tower-service leg and the loopback-TCP leg.
+fn judge_a(rep: &Reporter, prefix: &str, method: &str, ct: &Option<Vec<String>>, status: u16, body: &[u8], log: &[String]) -> (&'static str, serde_json::Value) {
+	struct Out<'a> {
+		status: u16,
+		body: &'a [u8],
+	}
+	let out = Out { status, body };
+	let case = json!({"engine":"ENUM","part":"A","method": method, "content_type": ct, "status": out.status, "handlers": log});
+		let exp_accept = match ct {
+			Some(v) if v.len() == 1 => Some(ref_accepted(&v[0])),
+			Some(v) => {
+				// duplicates: judged only when all values agree
+				let a: Vec<bool> = v.iter().map(|x| ref_accepted(x)).collect();
+				if a.iter().all(|x| *x) { Some(true) } else if a.iter().all(|x| !*x) { Some(false) } else { None }
+			}
+			None => Some(false),
+		};
+		let class;
+		if method != "POST" {
+			class = "non-post";
+			if out.status != 405 || !log.is_empty() {
+				rep.violation(&format!("{prefix}method:{method}:not-405"), &format!("{method} request answered {} (handlers run: {log:?}), expected 405 and no handler", out.status), case.clone());
+			}
+		} else {
+			match exp_accept {
+				Some(true) => {
+					class = "post-accepted";
+					let ok = out.status == 200 && log == ["sync_echo"] && serde_json::from_slice::<serde_json::Value>(&out.body).map_or(false, |v| v["id"] == 1 && v["result"]["m"] == "sync_echo");
+					if !ok {
+						rep.violation(&format!("{prefix}content-type:accepted-spelling-rejected"), &format!("POST with content-type {ct:?}: status {} body {:?}", out.status, String::from_utf8_lossy(&out.body)), case.clone());
+					}
+				}
+				Some(false) => {
+					class = "post-unsupported";
+					if out.status != 415 || !log.is_empty() {
+						rep.violation(&format!("{prefix}content-type:other-type-not-415"), &format!("POST with content-type {ct:?}: status {} handlers {log:?}, expected 415 and no handler", out.status), case.clone());
+					}
+				}
+				None => {
+					class = "post-mixed-duplicates";
+					if !(out.status == 415 && log.is_empty()) && !(out.status == 200 && log == ["sync_echo"]) {
+						rep.violation(&format!("{prefix}content-type:duplicates-odd"), &format!("POST with content-types {ct:?}: status {} handlers {log:?}", out.status), case.clone());
+					}
+				}
+			}
+		}
+	(class, case)
+}
+
 pub fn check(rep: &Reporter) {
 	let thorough = rep.tier.thorough();
 	rep.set_rule(
-		"(A) 10 HTTP methods × content-type values (the six accepted spellings in every letter-case variant — all 2^k for k ≤ 15 letters, 4 styles per word for longer ones —, 22 near misses, missing header, duplicated header) with a fixed valid call as body; (B) 19 bodies (calls, notification, batches, invalid, truncated, non-JSON, 0/1/126/127/128 leading blanks) × splits into consecutive chunks (quick: all splits into ≤3 chunks, thinned for bodies > 90 bytes, and the 4-chunk splits touching an end or on a stride; thorough: all splits into ≤4 chunks of bodies ≤ 64 bytes and into 5 chunks of bodies ≤ 40 bytes) × {no extra chunk, an empty chunk or a blank-only chunk inserted at every boundary incl. front and back} × Content-Length {absent, exact}; differential oracle: (status, body, invocation log) equals the single-frame request of the same bytes. Distinct by (method, content-type) resp. (body, frame sequence, content-length); all non-trivial.",
+		"(A) 10 HTTP methods × content-type values (the six accepted spellings in every letter-case variant — all 2^k for k ≤ 15 letters, 4 styles per word for longer ones —, 22 near misses, missing header, duplicated header) with a fixed valid call as body, and (A') every method × {none, the accepted spellings in 3 letter-case styles, every near miss, 4 duplicate pairs} as raw HTTP/1.1 requests through Server::start over loopback TCP; (B) 19 bodies (calls, notification, batches, invalid, truncated, non-JSON, 0/1/126/127/128 leading blanks) × splits into consecutive chunks (quick: all splits into ≤3 chunks, thinned for bodies > 90 bytes, and the 4-chunk splits touching an end or on a stride; thorough: all splits into ≤4 chunks of bodies ≤ 64 bytes and into 5 chunks of bodies ≤ 40 bytes) × {no extra chunk, an empty chunk or a blank-only chunk inserted at every boundary incl. front and back} × Content-Length {absent, exact}; differential oracle: (status, body, invocation log) equals the single-frame request of the same bytes. Distinct by (method, content-type) resp. (body, frame sequence, content-length); all non-trivial.",
 	);
 	rep.assume("the tower service Server uses per connection is called directly; hyper's own framing is not in the loop");
 	let cfg = || srv::cfg_builder().build();
@@ -185,50 +235,98 @@ pub fn check(rep: &Reporter) {
 				return;
 			}
 		};
-		let case = json!({"engine":"ENUM","part":"A","method": method, "content_type": ct, "status": out.status, "handlers": log});
-		let exp_accept = match ct {
-			Some(v) if v.len() == 1 => Some(ref_accepted(&v[0])),
-			Some(v) => {
-				// duplicates: judged only when all values agree
-				let a: Vec<bool> = v.iter().map(|x| ref_accepted(x)).collect();
-				if a.iter().all(|x| *x) { Some(true) } else if a.iter().all(|x| !*x) { Some(false) } else { None }
-			}
-			None => Some(false),
-		};
-		let class;
-		if method != "POST" {
-			class = "non-post";
-			if out.status != 405 || !log.is_empty() {
-				rep.violation(&format!("method:{method}:not-405"), &format!("{method} request answered {} (handlers run: {log:?}), expected 405 and no handler", out.status), case.clone());
-			}
-		} else {
-			match exp_accept {
-				Some(true) => {
-					class = "post-accepted";
-					let ok = out.status == 200 && log == ["sync_echo"] && serde_json::from_slice::<serde_json::Value>(&out.body).map_or(false, |v| v["id"] == 1 && v["result"]["m"] == "sync_echo");
-					if !ok {
-						rep.violation("content-type:accepted-spelling-rejected", &format!("POST with content-type {ct:?}: status {} body {:?}", out.status, String::from_utf8_lossy(&out.body)), case.clone());
-					}
-				}
-				Some(false) => {
-					class = "post-unsupported";
-					if out.status != 415 || !log.is_empty() {
-						rep.violation("content-type:other-type-not-415", &format!("POST with content-type {ct:?}: status {} handlers {log:?}, expected 415 and no handler", out.status), case.clone());
-					}
-				}
-				None => {
-					class = "post-mixed-duplicates";
-					if !(out.status == 415 && log.is_empty()) && !(out.status == 200 && log == ["sync_echo"]) {
-						rep.violation("content-type:duplicates-odd", &format!("POST with content-types {ct:?}: status {} handlers {log:?}", out.status), case.clone());
-					}
-				}
-			}
-		}
+		let (class, case) = judge_a(rep, "", method, ct, out.status, &out.body, &log);
 		local.case_unique(class);
 		if i == 4242 {
 			rep.sample(case);
 		}
 	});
+
+	// ---- (A') the same through Server::start over loopback TCP (hyper parses the request line and the headers):
+	//      every method × {no content type, the six accepted spellings in 3 letter-case styles, every near miss}
+	{
+		let mut cts2: Vec<Option<Vec<String>>> = vec![None];
+		for a in ACCEPTED {
+			cts2.push(Some(vec![a.to_string()]));
+			cts2.push(Some(vec![a.to_uppercase()]));
+			cts2.push(Some(vec![a.chars().enumerate().map(|(i, c)| if i % 2 == 0 { c.to_ascii_uppercase() } else { c }).collect()]));
+		}
+		for n in NEAR {
+			cts2.push(Some(vec![n.to_string()]));
+		}
+		for a in ["application/json", "text/plain"] {
+			for b in ["application/json", "text/plain"] {
+				cts2.push(Some(vec![a.to_string(), b.to_string()]));
+			}
+		}
+		let ncase = cts2.len() * METHODS.len();
+		rep.extra("tcp_leg_cases", json!(ncase));
+		par_for(
+			rep,
+			ncase,
+			8,
+			|| {
+				let rt = srv::rt();
+				let log: srv::InvLog = Default::default();
+				let started = {
+					let _e = rt.enter();
+					let listener = std::net::TcpListener::bind("127.0.0.1:0").expect("bind loopback");
+					listener.set_nonblocking(true).unwrap();
+					let addr = listener.local_addr().unwrap();
+					let server = jsonrpsee_server::Server::builder().set_config(cfg()).build_from_tcp(listener).expect("server");
+					(addr, server.start(srv::std_module(log.clone())))
+				};
+				(rt, log, started)
+			},
+			|i, (rt, log, (addr, _handle)), local| {
+				use tokio::io::{AsyncReadExt, AsyncWriteExt};
+				let ct = &cts2[i / METHODS.len()];
+				let method = METHODS[i % METHODS.len()];
+				// CONNECT asks hyper for a tunnel and HEAD answers carry no body: both are still judged on status and handlers
+				let mut req = format!("{method} / HTTP/1.1\r\nhost: localhost\r\nconnection: close\r\ncontent-length: {}\r\n", CALL.len());
+				if let Some(vals) = ct {
+					for v in vals {
+						req.push_str(&format!("content-type: {v}\r\n"));
+					}
+				}
+				req.push_str("\r\n");
+				req.push_str(CALL);
+				log.lock().unwrap().clear();
+				let mut attempt = 0;
+				let resp: Option<(u16, Vec<u8>)> = loop {
+					attempt += 1;
+					let r = rt.block_on(async {
+						let mut io = tokio::net::TcpStream::connect(*addr).await.ok()?;
+						io.write_all(req.as_bytes()).await.ok()?;
+						let mut buf = Vec::new();
+						let _ = tokio::time::timeout(std::time::Duration::from_secs(10), io.read_to_end(&mut buf)).await.ok()?;
+						let text = String::from_utf8_lossy(&buf).to_string();
+						let status: u16 = text.split_whitespace().nth(1)?.parse().ok()?;
+						let body = match (text.find("\r\n\r\n"), text.find('{'), text.rfind('}')) {
+							(Some(h), Some(a), Some(b)) if a > h && b >= a => text[a..=b].as_bytes().to_vec(),
+							(Some(h), _, _) => text[h + 4..].as_bytes().to_vec(),
+							_ => vec![],
+						};
+						Some((status, body))
+					});
+					if r.is_some() || attempt >= 3 {
+						break r;
+					}
+					std::thread::sleep(std::time::Duration::from_millis(50 * attempt));
+				};
+				let Some((status, body)) = resp else {
+					rep.machinery_error(format!("SRV-TCP leg: no HTTP response for {method} {ct:?}"));
+					return;
+				};
+				let handlers = log.lock().unwrap().clone();
+				// on the wire, optional whitespace around a header value is not part of the value (RFC 9110 §5.5): what the
+				// server can see, and what the reference judges, is the trimmed value
+				let seen: Option<Vec<String>> = ct.as_ref().map(|v| v.iter().map(|x| x.trim_matches([' ', '\t']).to_string()).collect());
+				let (class, _case) = judge_a(rep, "tcp:", method, &seen, status, &body, &handlers);
+				local.case_unique(&format!("tcp:{class}"));
+			},
+		);
+	}
 
 	// ---- (B) chunking differential
 	let bodies = bodies();
